@@ -204,6 +204,14 @@ def py_oracle_lib(line, impl_head, px):
     M = int(f[1].split()[0])
     cx, cw = [int(x) for x in f[2].split()]
     m = re.match(r"ok dims (\d+) (\d+) M=(\d+) ", impl_head)
+    rejected = impl_head.endswith(" err")
+    if m and rejected:
+        ow = int(m.group(1))
+        if cx < 0:
+            bad.append(("decode-error", "decompression failed: " + impl_head[-60:]))
+        elif not (cw == 0 or cx + cw > ow):
+            bad.append(("crop-rejected", "a valid crop region (%d,%d) of width %d was rejected" % (cx, cw, ow)))
+        return bad
     if not m:
         if impl_head.endswith(" err") or impl_head == "err":
             ow = ceil_div(W * M, 8)
@@ -347,7 +355,7 @@ def run_cases(ctx, cases, exes, drv, flavours):
                 rc, err = crash_at[i]
                 sig = HAZ[hz] if hz in HAZ else "crash:" + ("tj" if is_tj else "lib")
                 ctx.violation("implementation %s (%s build, rc=%d)%s: %s" % (
-                    "hung (killed by the 30 s watchdog)" if rc == -14 else "crashed",
+                    "hung (killed by the harness watchdog)" if rc == -14 else "crashed",
                     fl, rc, " -- jpeg_crop_scanline re-initialises the separate upsampler while the merged one is installed" if hz == 5 else "",
                     (err.strip().split("\n") or [""])[0][:200]),
                     {"case": line, "flavour": fl, "stderr": err[-1500:]}, signature=sig)
